@@ -2,7 +2,7 @@
    Property theorems only (proved in Clnt/ClntProofs.v). [k] is the size of the
    tag pool; the real client has k = 65535 (cinit = cinit_n (N.to_nat c_NOTAG)). *)
 From Coq Require Import NArith List Bool.
-From V9 Require Shape.ShapeLib Shape.PViews Recv.Views.
+From V9 Require Shape.ShapeLib Shape.PViews Shape.PClient Recv.Views.
 From V9 Require Race.Facts Shape.PLocks.
 From V9 Require Import Lib.GoSem Gen.Consts Clnt.Model Clnt.ClntProofs.
 Import ListNotations.
@@ -94,3 +94,8 @@ Print Assumptions C09_source_never_compacts_a_receive_buffer.
 Theorem C09_source_critical_sections : V9.Race.Facts.violations = [].
 Proof. exact V9.Shape.PLocks.sites_comply_ok. Qed.
 Print Assumptions C09_source_critical_sections.
+
+(* a recycled request slot carries nothing of its previous call when Rpcnb links it again *)
+Theorem C09_source_reqfree_clears_slot : V9.Shape.ShapeLib.reqfree_clears_slot = true.
+Proof. exact V9.Shape.PClient.reqfree_clears_slot_ok. Qed.
+Print Assumptions C09_source_reqfree_clears_slot.
